@@ -238,6 +238,16 @@ def run_property(pid, tier, seed):
         for c in mod.contracts(env):
             handle_function(rep, mod, env, c, budget, lock)
         rep.trusted.extend(env.trusted)
+        # contracts of another property that this property's statement also rests on: verified again here, in
+        # the environment of the module that owns them, and counted (and reported) under this property
+        for fname, keep in getattr(mod, 'REUSED_CONTRACTS', ()):
+            fmod = importlib.import_module('specs.%s' % fname)
+            fenv = fmod.base_env()
+            for c in fmod.contracts(fenv):
+                if any(k in c.label for k in keep):
+                    c.label = c.label + ' [contract of %s, reused by %s]' % (fname.upper(), pid)
+                    handle_function(rep, mod, fenv, c, budget, lock)
+            rep.trusted.extend(t for t in fenv.trusted if t not in rep.trusted)
         if hasattr(mod, 'extra'):
             mod.extra(rep, tier, seed, budget)
         # the composition step shared by several properties: _handle_pull_request under contract
